@@ -83,9 +83,10 @@ class _BaseFrameField2DFaces(FrameField) :
             except:
                 self.log("Second estimation of alpha failed: taking alpha = ", fail_value)
                 return fail_value
-        eigs_non_zero = [e for e in eigs if abs(e)>1e-6]
+        scale = lap_no_pt.diagonal().sum() / A.diagonal().sum() # eigenvalues are homogeneous to 1/length^2
+        eigs_non_zero = [e for e in eigs if abs(e)>1e-6*scale]
         if len(eigs_non_zero)==0:
-            return fail_value
+            return fail_value*scale
         return abs(min(eigs_non_zero))
 
     def flag_singularities(self, singul_attr_name:str = "singuls"):        
